@@ -303,6 +303,8 @@ CARRIERS: List[Carrier] = [
             'if t:\n    {}\nz = 0\n', ['a = 1', 'b = 2', 'c = 3', 'd = 4'], ['p = 5', 'q(6)'], sep='\n', tsep='\n    '),
     Carrier('strstmts', 'if t:\n    b\"\"\"l1\n  l2\"\"\"\n    a = 1\n    \"\"\"s1\n      s2\"\"\"  # cs\nz = 0\n', L0, 'body',
             'if t:\n    {}\nz = 0\n', ['b\"\"\"l1\n  l2\"\"\"', 'a = 1', '\"\"\"s1\n      s2\"\"\"'], ['p = 5', 'q(6)'], sep='\n', tsep='\n    '),
+    Carrier('defdoc', 'class c:\n    def f(self):\n        \"\"\"doc\n        more\"\"\"\n        return 1\n    x = 2\n', L0, 'body',
+            'class c:\n    {}\n', ['def f(self):\n    \"\"\"doc\n    more\"\"\"\n    return 1', 'x = 2'], ['p = 5', 'q(6)'], sep='\n', tsep='\n    ', tindent='    '),
     Carrier('orelse2', 'if x:\n    pass\nelse:  # e\n    y = 0\n    z = 0\nw = 1\n', L0, 'orelse', 'if x:\n    pass\nelse:\n    {}\nw = 1\n', ['y = 0', 'z = 0'],
             ['if a:\n    b = 1', 'c = 2'], sep='\n', tsep='\n    ', tindent='    ', tmpl0='if x:\n    pass\nw = 1\n'),
     Carrier('elifchain', 'if x:\n    pass\nelif y:  # e\n    u = 0\nw = 1\n', L0, 'orelse', 'if x:\n    pass\nelse:\n    {}\nw = 1\n', ['if y:\n    u = 0'],
